@@ -13,8 +13,9 @@ class RD(SeqCheck):
     rule = ("histories of Check(seq)/accept on New and WithWrap detectors; window and maximum drawn from edge-biased "
             "sets (word multiples +-1, 0, tiny, 2^16-1, 2^48-1, 2^62-1, 2^64-1); sequence numbers drawn relative to the "
             "newest accepted number (window edges, word edges, replays, 0, max, max+1, half space +-3); a history is "
-            "non-trivial when at least two numbers were accepted and at least one check was refused; distinct = "
-            "distinct (configuration, operation list)")
+            "non-trivial when at least two numbers were accepted and at least one check was refused; a sixth of the histories "
+            "exercise the bitmap itself: 10-70 Lsh (0, 1, word multiples +-1, window +-1, 2^40, random) / SetBit / Bit operations on "
+            "windows 0-400, every word compared; distinct = distinct (configuration, operation list)")
     trusted = ["closure discipline: accept() is called at most once, immediately after its Check (the only use the API documents)"]
     assumptions = ["callbacks kept and invoked after a later Check are outside the quantifier",
                    "Go uint is 64 bit (amd64)"]
@@ -46,7 +47,10 @@ class C04(RD):
                   "(every window < 2^62, maximum 2..2^62-1, every history) and C04_never_above_max_* about an executable model of "
                   "both detectors; the model is tied to the code on every run by running thousands of generated Check/accept "
                   "histories on the real detectors and on the extracted model and comparing every answer; an extracted Spec "
-                  "oracle is applied to the implementation's answers as well")
+                  "oracle is applied to the implementation's answers as well. C04_words_refine_bitmap: the window bitmap as the code "
+                  "stores it (64-bit words, word-by-word shift with carry, top word masked) computes exactly the integer bitmap of the "
+                  "detector model for every window size, shift distance and bit index; that word-level model is compared with the real "
+                  "fixedBigInt (Lsh/SetBit/Bit, all words) in a sixth of the histories")
     level_note = ("trusted: Coq kernel, extraction + OCaml driver, Go harness/generator; theorem is about the model, the tie to "
                   "the code is differential testing; accept() assumed to be invoked at most once right after its Check; "
                   "known finding: WithWrap over the space 0..1 (C04_wrap_max1_refuted)")
